@@ -298,7 +298,7 @@ def theorem_of(l):
         return "traceql_every_scan_bounded (TraceqlPlan.plan)"
     if ep in TQ_EPS:
         return "traceql_estimate_every_scan_bounded (ScansTq.TE.plan_eval)"
-    if ep in ("tempo_search_tags", "tempo_search_plain"):
+    if ep in ("tempo_search_tags", "tempo_search_plain", "tempo_search_gen"):
         return "tempo_search_every_scan_bounded (ScansTempo.search_query)"
     if ep == "tempo_trace":
         return "tempo_trace_every_scan_bounded (ScansTempo.trace_query)"
@@ -331,7 +331,7 @@ def run_scan(ck):
         if os.path.exists(corpus):
             runs.append(("corpus", ["--cases", corpus]))
         sweep = ["--seed", ck.seed, "--random-windows", ck.n(3, 40), "--tails", ck.n(2, 6), "--cluster", "both",
-                 "--schemas", "new" if ck.quick() else "both"]
+                 "--schemas", "new" if ck.quick() else "both", "--tempo-gen", ck.n(60, 1500)]
         runs.append(("sweep", sweep))
     hist = {}
     split = {"statements_whose_builder_is_under_a_theorem_for_all_inputs": 0, "statements_judged_per_statement_only": 0,
@@ -862,6 +862,7 @@ def run_tempo_tie(ck, lines):
     """text of the Tempo v1 statement model (ScansTempo.v, under tempo_search_every_scan_bounded / tempo_trace_every_scan_bounded)
     = recorded statement, byte for byte"""
     cases, seen = [], set()
+    gen = [l for l in lines if l["kind"] == "stmt" and l["ep"] == "tempo_search_gen" and l.get("gen")]
     for l in lines:
         if l["kind"] != "stmt" or l["ep"] not in TV_EPS or l["zone"] not in (0, -43200):
             continue
@@ -874,10 +875,23 @@ def run_tempo_tie(ck, lines):
         ck.obligation("Tempo v1 statements of the sweep compared with the model", False, "no statement found")
         return
     items = []
+    nfixed = len(cases)
+    cases = cases + gen
+    TGOP = {"=": "TgEq", "!=": "TgNeq", "=~": "TgRe", "!~": "TgNre"}
+    DUR = {"": 0, "1ms": 1000000, "1500us": 1500000, "250ms": 250000000, "2s": 2000000000}
+    ghist = {}
     for i, l in enumerate(cases):
-        req = TV_EPS[l["ep"]]
-        if "%s" in req:
-            req = req % ("true" if l["schema"] != "old" else "false")
+        if i >= nfixed:
+            g = l["gen"]
+            tags = "[" + "; ".join("{| tg_key := %s; tg_op := %s; tg_val := %s |}" % (coq_string(t[0]), TGOP[t[1]], coq_string(t[2])) for t in (g.get("tags") or [])) + "]"
+            req = "TSearch %s %d %d %d true" % (tags, int(g["limit"] or "10"), DUR[g["min_dur"]], DUR[g["max_dur"]])
+            for k in (["tags=%d" % len(g.get("tags") or []), "limit=" + (g["limit"] or "absent"), "min=" + (g["min_dur"] or "absent"), "max=" + (g["max_dur"] or "absent"),
+                       "cluster" if l["cluster"] else "single"] + ["op" + t[1] for t in (g.get("tags") or [])]):
+                ghist[k] = ghist.get(k, 0) + 1
+        else:
+            req = TV_EPS[l["ep"]]
+            if "%s" in req:
+                req = req % ("true" if l["schema"] != "old" else "false")
         items.append('{| tv_id := %d; tv_db := "verif"; tv_cluster := %s; tv_from := %d; tv_to := %d; tv_req := %s; tv_sql := %s |}' % (
             i, "true" if l["cluster"] else "false", l["from_ns"], l["to_ns"], req, coq_string(l["sql"])))
     txt = ("From Coq Require Import List ZArith NArith String Ascii Bool.\n"
@@ -893,10 +907,14 @@ def run_tempo_tie(ck, lines):
         return
     bad = [int(x) for x in re.findall(r"-?\d+", m.group(1))]
     eps = {c["ep"] for c in cases}
+    eps.discard("tempo_search_gen")
     ck.obligation("correspondence: render (search_query / trace_query / tags_query / values_query) = recorded Tempo v1 statement, byte for byte, on %d statements "
-                  "(%d endpoints, both layouts)" % (len(cases), len(eps)), not bad and len(eps) == len(TV_EPS),
+                  "(%d endpoints, both layouts) + %d generated /api/search requests (0-3 tags with = != =~ !~, quoted keys / values with spaces, quotes, "
+                  "backslashes and non-ASCII bytes, limit absent / 0 / 1 / 20 / 100, minDuration / maxDuration absent or set)" % (nfixed, len(eps), len(gen)),
+                  not bad and len(eps) == len(TV_EPS) and len(gen) >= 40,
                   "; ".join("%s %s %s: %.400s" % (cases[i]["ep"], "cluster" if cases[i]["cluster"] else "single", cases[i]["class"], cases[i]["sql"]) for i in bad[:3]))
     ck.extra["tempo_v1_model_ties"] = len(cases)
+    ck.extra["tempo_search_generated_distribution"] = ghist
     ck.coverage["evaluations"] += len(cases)
 
 
